@@ -824,7 +824,9 @@ class Generator:
 
     def g_union(self):
         m = self.m
-        l = self.pick_table(lambda p: not p.m.grouping and p.m.visible)
+        # no full join below a union: SQLite 3.40 drops the WHERE of a FULL JOIN member when the
+        # compound select is itself a sub-select (engine defect, reproduced with plain sqlite3)
+        l = self.pick_table(lambda p: not p.m.grouping and p.m.visible and not p.m.full_join)
         if l is None:
             return None
         names = set(l.m.names())
@@ -837,6 +839,7 @@ class Generator:
                 and not (set(p.m.scope) & set(l.m.scope))
                 and set(p.real) & set(l.real)
                 and self.union_types_ok(l, p)
+                and not p.m.full_join
             )
 
         r = self.pick_table(ok)
